@@ -862,7 +862,8 @@ struct RegistryEngine : Engine
 			"bind (own address, second address, wildcard, port 0, privileged, foreign, wrong family, an endpoint held right now), listen, connect with implicit bind, close, "
 			"re-open, move-construct + destroy source, destroy, accept + close of accepted sockets; the guarded knob starts the ephemeral counter at 65400-65534 in 40 % of runs; "
 			"every op is compared with a reference registry (set of acceptable error codes, resolved endpoint, local_endpoint, is_open) and behavioural probes connect / send a "
-			"datagram to every endpoint ever bound: only the model's current holder may be reached. distinct = distinct shape hash; non-trivial = a probe reached a holder "
+			"datagram to every endpoint ever bound: only the model's current holder may be reached. Also: a second bind on a bound socket, accept targets bound by the "
+			"application, node addresses in either order, a datagram in flight while its destination is closed, re-opened and bound elsewhere. distinct = distinct shape hash; non-trivial = a probe reached a holder "
 			"or a bind hit a taken endpoint";
 	}
 	int64_t budget(std::string const&, int tier) const override { return tier ? 1000000 : 60000; }
